@@ -555,3 +555,7 @@ Qed.
 (** with the regenerated Laplace approximants of hypergeo.py plugged in, no hypothesis is left *)
 Lemma C18_skip_or_valid_linked lgam eg : all_wrappers_ok (RF lgam eg) (hypfns RNum (RF lgam eg)).
 Proof. apply C18_skip_or_valid_any. apply hypfns_noKL. Qed.
+
+Lemma C18_example lgam eg (H : HypFns RNum) :
+  exists logl, rootward_projection RNum (RF lgam eg) H 0 (1, 2) (3, 1) = Ok (Val (logl, (1 + 3, 2 + 1))).
+Proof. apply rootward_projection_conjugate; lra. Qed.
